@@ -9,9 +9,17 @@ pub mod bbox_own_areas;
 
 use geo::{Coord, CoordsIter, LineString, Polygon};
 
+/// Signed area of the triangle (p1, p2, q) x 2: the side of the line p1 -> p2 the point `q` lies on
+fn edge_side(q: &Coord<f64>, p1: &Coord<f64>, p2: &Coord<f64>) -> f64 {
+    (p2.x - p1.x) * (q.y - p1.y) - (p2.y - p1.y) * (q.x - p1.x)
+}
+
 fn is_inside(q: &Coord<f64>, p1: &Coord<f64>, p2: &Coord<f64>) -> bool {
-    let r = (p2.x - p1.x) * (q.y - p1.y) - (p2.y - p1.y) * (q.x - p1.x);
-    r <= 0.0
+    // a point that lies on the clipping line up to the rounding error of its coordinates is inside:
+    // otherwise the two ends of an edge that is collinear with the clipping edge end up on different sides
+    let magnitude = q.x.abs().max(q.y.abs()).max(p1.x.abs()).max(p1.y.abs()).max(1.0);
+    let tolerance = 8.0 * f64::EPSILON * magnitude * ((p2.x - p1.x).abs() + (p2.y - p1.y).abs());
+    edge_side(q, p1, p2) <= tolerance
 }
 
 fn compute_intersection(
@@ -20,20 +28,15 @@ fn compute_intersection(
     s: &Coord<f64>,
     e: &Coord<f64>,
 ) -> Coord<f64> {
-    let dc = Coord {
-        x: cp1.x - cp2.x,
-        y: cp1.y - cp2.y,
-    };
-    let dp = Coord {
-        x: s.x - e.x,
-        y: s.y - e.y,
-    };
-    let n1 = cp1.x * cp2.y - cp1.y * cp2.x;
-    let n2 = s.x * e.y - s.y * e.x;
-    let n3 = 1.0 / (dc.x * dp.y - dc.y * dp.x);
+    // cp1 and cp2 lie on different sides of the line s -> e: the crossing point divides the edge
+    // cp1 -> cp2 in the ratio of their distances to that line (well-conditioned also for an edge
+    // that is almost parallel to the line, where intersecting the two infinite lines is not)
+    let d1 = edge_side(cp1, s, e);
+    let d2 = edge_side(cp2, s, e);
+    let t = d1 / (d1 - d2);
     Coord {
-        x: (n1 * dp.x - n2 * dc.x) * n3,
-        y: (n1 * dp.y - n2 * dc.y) * n3,
+        x: cp1.x + (cp2.x - cp1.x) * t,
+        y: cp1.y + (cp2.y - cp1.y) * t,
     }
 }
 
